@@ -73,6 +73,7 @@ class LeanStatus:
     theorems: dict[str, list[str]] = field(default_factory=dict)  # user theorems -> axioms
     auto_theorems: int = 0
     problems: list[str] = field(default_factory=list)
+    leanchecker: str = "not run (thorough tier only)"
 
     @property
     def ok(self) -> bool:
@@ -153,6 +154,13 @@ def lean_check(modules: list[str], required: list[str]) -> LeanStatus:
         if r not in st.theorems:
             st.problems.append(f"required property theorem {r} is missing")
     st.log += f"\n[audit] {len(st.theorems)} theorems in {_time.time()-t0:.1f}s"
+    if os.environ.get("VERIF_TIER") == "thorough" or "thorough" in sys.argv[1:]:
+        # independent re-check of the compiled proofs by the toolchain's stand-alone kernel checker
+        proc = subprocess.run(["lake", "env", "leanchecker", *modules], cwd=LEAN_DIR, env=env,
+                              capture_output=True, text=True)
+        st.leanchecker = "ok" if proc.returncode == 0 else "FAILED"
+        if proc.returncode != 0:
+            st.problems.append("leanchecker rejected the compiled modules: " + (proc.stdout + proc.stderr)[-400:])
     return st
 
 
@@ -458,6 +466,7 @@ def run_check(prop: str, *, lean_modules: list[str], required_theorems: list[str
         "level_text": level_text,
         "known_findings_seen": n_known,
         "lean_problems": lean.problems,
+        "leanchecker": lean.leanchecker,
     }
     ev = {"property_id": prop, "tier": tier, "seed": seed, "level": "proof", "coverage": cov,
           "assumptions": assumptions, "wall_s": round(_time.time() - t0, 2),
